@@ -1184,3 +1184,70 @@ package hermes
 //@   ensures[C05,C16] record: due() && cur() >= 1 ==> finishedCycle
 //@   ensures[C16] harvestyear: due() && cur() >= 1 && g.AKF.Index == cur() + 1 ==> validDate(output.HarvestYear, hm, hd) && daynumber(output.HarvestYear, hm, hd) == zeit
 //@   ensures[C16] rotation: unchanged(g.FRUCHT, g.SAAT1, g.SAAT2, g.ERNTE2)
+
+// ---------------------------------------------------------------------------
+// C09  crop state (regions of the crop model PhytoOut and of the parameter readers)
+// development stage: moves forward by at most one stage per day, only when the stage's temperature sum is reached,
+// never past the last stage; the day of year of the stage entry is recorded
+//@ region PhytoOut#stage from "if g.SUM[g.INTWICK.Index] >= g.TSUM[g.INTWICK.Index] { if int(g.INTWICK.Num) < l.NRENTW {" to "if g.SUM[g.INTWICK.Index] >= g.TSUM[g.INTWICK.Index] { if int(g.INTWICK.Num) < l.NRENTW {"
+//@   serves C09
+//@   define st() = old(g.INTWICK.Index)
+//@   requires stage: 0 <= g.INTWICK.Index && g.INTWICK.Index < 9 && g.INTWICK.Offset == 1 && g.INTWICK.Num == real(g.INTWICK.Index + g.INTWICK.Offset)
+//@   requires stages: 1 <= l.NRENTW && l.NRENTW <= 10
+//@   requires day: 0 <= g.TAG.Index && g.TAG.Index < 366
+//@   ensures forward: g.INTWICK.Index == st() || g.INTWICK.Index == st() + 1
+//@   ensures reached: g.INTWICK.Index == st() + 1 ==> old(g.SUM[g.INTWICK.Index]) >= g.TSUM[st()] && st() + 1 < l.NRENTW
+//@   ensures entryday: g.INTWICK.Index == st() + 1 ==> g.DEV[g.INTWICK.Index] == g.TAG.Index + 1
+//@   ensures earlier: forall(s, 0, 10, s != g.INTWICK.Index || g.INTWICK.Index == st() ==> g.DEV[s] == old(g.DEV[s]))
+//@   ensures dual: g.INTWICK.Num == real(g.INTWICK.Index + 1)
+
+// organ masses: the first three organs stay positive, the others non-negative, leaf area index non-negative
+//@ region PhytoOut#organs from "for i := 0; i < g.NRKOM; i++ { if g.SUM[g.INTWICK.Index]/g.TSUM[g.INTWICK.Index] > 1 {" to "for i := 0; i < g.NRKOM; i++ { if g.SUM[g.INTWICK.Index]/g.TSUM[g.INTWICK.Index] > 1 {"
+//@   serves C09
+//@   requires organs: 0 <= g.NRKOM && g.NRKOM <= 5
+//@   requires stage: 1 <= g.INTWICK.Index && g.INTWICK.Index < 10
+//@   requires lai: g.LAI >= 0
+//@   ensures positive: forall(j, 0, g.NRKOM, ite(j < 3, g.WORG[j] > 0, g.WORG[j] >= 0))
+//@   ensures lai: g.LAI >= 0
+//@ loop PhytoOut@"for i := 0; i < g.NRKOM; i++ { if g.SUM[g.INTWICK.Index]/g.TSUM[g.INTWICK.Index] > 1 {"
+//@   invariant range: 0 <= \i && \i <= g.NRKOM
+//@   invariant positive: forall(j, 0, \i, ite(j < 3, g.WORG[j] > 0, g.WORG[j] >= 0))
+//@   invariant lai: g.LAI >= 0
+//@   invariant frame: g.NRKOM == pre(g.NRKOM) && g.INTWICK.Index == pre(g.INTWICK.Index)
+
+// rooting depth: at least one layer, never deeper than the profile or the soil's root limit scaled by the crop factor
+//@ region PhytoOut#rootdepth from "WURM := math.Round(float64(g.WURZMAX) * (g.WUMAXPF / 11.))" to "g.WURZ = int(4.5 / Qrez / g.DZ.Num)"
+//@   serves C09
+//@   opaque root
+//@   requires layers: 1 <= g.N && g.N <= 20
+//@   requires units: g.DZ.Num == 10
+//@   ensures inprofile: 1 <= g.WURZ && g.WURZ <= g.N
+//@   ensures rootlimit: real(g.WURZ) <= max(1.0, real(floor(real(g.WURZMAX)*(g.WUMAXPF/11) + 0.5)))
+
+// N uptake per layer: non-negative and never more than what the layer holds above 0.75 kg N/ha
+//@ region PhytoOut#uptake from "var SUMPE float64" to "for index := 0; index < int(min); index++ { if DTGESN > 0 {"
+//@   serves C09, C07
+//@   requires roots: 0 <= g.WURZ && g.WURZ <= 20
+//@   ensures bounded: forall(j, 0, 21, real(j) < min(real(g.WURZ), g.GRW) - 1 ==> g.PE[j] >= 0 && g.PE[j] <= max(0.0, g.C1[j] - 0.75))
+//@   ensures total: SUMPE >= 0
+//@ loop PhytoOut@"for index := 0; index < int(min); index++ { if DTGESN > 0 {"
+//@   invariant range: 0 <= \i && (real(\i) <= min || min < 0) && min == math.Min(real(g.WURZ), g.GRW)
+//@   invariant bounded: forall(j, 0, \i, g.PE[j] >= 0 && g.PE[j] <= max(0.0, g.C1[j] - 0.75))
+//@   invariant total: SUMPE >= 0
+//@   invariant frame: g.C1 == pre(g.C1) && g.WURZ == pre(g.WURZ) && g.GRW == pre(g.GRW)
+
+// sowing an annual crop clears every stage sum and stage-entry day of the previous crop (both readers)
+//@ region ReadCropParamYml#reset from "maxOrgans := 5" to "if !g.DAUERKULT { ResetStages(g)"
+//@   serves C09
+//@   ensures cleared: !g.DAUERKULT ==> forall(s, 0, 10, g.SUM[s] == 0 && g.DEV[s] == 0) && g.PHYLLO == 0 && g.VERNTAGE == 0
+//@ region ReadCropParamClassic#reset from "if !g.DAUERKULT { ResetStages(g)" to "if !g.DAUERKULT { ResetStages(g)"
+//@   serves C09
+//@   ensures cleared: !g.DAUERKULT ==> forall(s, 0, 10, g.SUM[s] == 0 && g.DEV[s] == 0) && g.PHYLLO == 0 && g.VERNTAGE == 0
+//@ loop ReadCropParamYml@"for i := 0; i < maxOrgans; i++ { for i2 := 0; i2 < maxStages; i2++ {"
+//@   unroll 5
+//@ loop ReadCropParamYml@"for i2 := 0; i2 < maxStages; i2++ { g.SUM[i2] = 0 g.DEV[i2] = 0"
+//@   unroll 10
+//@ loop ReadCropParamClassic@"for i := 0; i < 5; i++ { for i2 := 0; i2 < 10; i2++ {"
+//@   unroll 5
+//@ loop ReadCropParamClassic@"for i2 := 0; i2 < 10; i2++ { g.SUM[i2] = 0 g.DEV[i2] = 0"
+//@   unroll 10
